@@ -320,3 +320,31 @@ def row_mask_table(mask, arr="bases", lit="lit:'Z'", nsites=2):
             return None
         table[row] = r[1]
     return table
+
+
+def vec_dot_normal(t):
+    """Normal form for contractions of *vectors* (the caller knows the operands have rank 1): sum(a*b, [-1]) and matmul(a, b)
+    are the same number, and the order of the two vectors does not matter.  Everything becomes dot(a, b) with a <= b."""
+    if t is None or not hasattr(t, "all_atoms"):
+        return t
+
+    def fn(a):
+        if isinstance(a, T.App) and a.op == "matmul" and len(a.args) == 2:
+            x, y = sorted((a.args[0], a.args[1]), key=repr)
+            return T.P(T.App("dot", (x, y)))
+        if isinstance(a, T.App) and a.op == "sum" and len(a.args) == 2 and isinstance(a.args[1], (tuple, list)) and tuple(a.args[1]) in ((-1,), (0,)):
+            inner = a.args[0]
+            total = T.ZERO
+            for mono, c in inner.terms.items():
+                fs = [(x, pw) for x, pw in mono]
+                if len(fs) == 2 and all(pw == 1 for _, pw in fs):
+                    x, y = sorted((T.P(fs[0][0]), T.P(fs[1][0])), key=repr)
+                elif len(fs) == 1 and fs[0][1] == 2:
+                    x = y = T.P(fs[0][0])
+                else:
+                    return None
+                total = total + T.const(c) * T.P(T.App("dot", (x, y)))
+            return total
+        return None
+
+    return T.subst(t, fn)
